@@ -303,6 +303,11 @@ def run(ctx):
     if rv:
         pops = rv.calls("re:LruCache.*::pop$")
         r5.check(bool(pops), "error=>uncache", "an ErrorResponse pops the registering statement from the server cache", "recv no longer removes a failed statement from the server cache")
+    hp = ctx.body("pgcat::server::Server::has_prepared_statement", r5)
+    if hp:
+        lk = [c.name.split("::")[-1] for c in hp.calls("re:^lru::LruCache.*::(get|get_mut|promote|contains|peek|peek_mut)$")]
+        r5.check(bool(lk) and set(lk) <= {"get", "get_mut", "promote"}, "presence-check-promotes", "has_prepared_statement is a recency-promoting lookup (LruCache::%s)" % sorted(set(lk)),
+                 "has_prepared_statement uses %s: a statement ensured earlier in a pipelined batch is not marked recently used, so ensuring a later statement of the same batch can evict and Close it before the batch is sent (`prepared statement does not exist`)" % sorted(set(lk)))
     ac = ctx.body("pgcat::server::Server::add_prepared_statement_to_cache", r5)
     if ac:
         r5.check(bool(ac.calls("re:LruCache.*::push$")), "lru-push", "the server cache is an LRU push (returns the evicted entry)", "add_prepared_statement_to_cache no longer uses LruCache::push")
